@@ -38,6 +38,8 @@ class C10(F.Spec):
             yield self.uncalibrated(rng, i)
         for i in range(n // 3):
             yield self.autocal(rng, i)
+        for i in range(n // 3):
+            yield self.tilt_retarget(rng, i)
         for i in range(n):
             yield self.ticks(rng, i)
 
@@ -105,6 +107,42 @@ class C10(F.Spec):
                                          "p0": p0, "t0": t0, "cmds": cmds, "startup": startup, "noshrink": True,
                                          "tags": ["kind:pos", "tilt:%d" % tt, "target:%s" % ("end" if g in (0, 100) else "mid")]})
 
+    def tilt_retarget(self, rng, i):
+        """facade blind: a positioning task settles, then tilt-only requests (position 'keep'), the second one while the tilt
+        phase of the first is still running"""
+        tt = rng.choice([1, 1, 2, 3])
+        opening = 100 * rng.randint(50, 300)
+        closing = rng.choice([opening, 100 * rng.randint(50, 300)])
+        tms = 100 * rng.randint(10, 30)
+        if tms * 3 >= min(opening, closing):
+            tms = 100 * max(2, min(opening, closing) // 400)
+        p0, t0 = rng.randint(20, 80), rng.choice([0, 100, rng.randint(0, 100)])
+        g = 100 if tt == 3 else rng.randint(20, 80)
+        gt = rng.randint(0, 100)
+        if tt == 3:
+            p0, t0 = 100, rng.randint(0, 100)
+        dur = ((opening // 100) << 16) | (closing // 100)
+        ops = ["boot %d" % rng.choice([12345, rng.getrandbits(32) | 1]), "board rs1 0", "motor 3 0 %d %d" % (opening, closing), "init", "calllog 1",
+               "rstimes 0 %d %d %d %d" % (opening, closing, tms, tt), "rspos 0 %d %d" % (100 + 100 * p0, 100 + 100 * t0),
+               "rsmargin 0 -1", "physpos 0 %d" % p0, "adv 1500"]
+        ops.append("msg 110 " + set_value(7, 0, dur, [10 + g, 10 + gt]).hex())
+        cmds = [(g, gt)]
+        self.run_until_idle(ops, int(max(opening, closing) * 1.4) + 3 * tms + 4000)
+        for k in range(rng.randint(2, 3)):
+            gtk = rng.choice([0, 100, rng.randint(0, 100), rng.randint(0, 100)])
+            ops.append("msg 110 " + set_value(8, 0, dur, [255, 10 + gtk]).hex())
+            cmds.append((-1, gtk))
+            if k == 0 or rng.random() < .5:
+                # the next request arrives while this one is tilting (or waiting for its start delay)
+                self.run_until_idle(ops, rng.choice([100, 300, 500, 800, 1200]))
+            else:
+                self.run_until_idle(ops, 3 * tms + 3000)
+        self.run_until_idle(ops, int(max(opening, closing) * 0.5) + 4 * tms + 6000)
+        ops += ["physshow 0"]
+        return F.Case("tiltre%d" % i, ops, {"kind": "pos", "tt": tt, "opening": opening, "closing": closing, "tms": tms, "margin": -1,
+                                            "p0": p0, "t0": t0, "cmds": cmds, "startup": 0, "noshrink": True,
+                                            "tags": ["kind:tiltre", "tilt:%d" % tt]})
+
     def uncalibrated(self, rng, i):
         kind = rng.choice(["zerotimes", "lostpos", "halfzero"])
         opening, closing = {"zerotimes": (0, 0), "lostpos": (20000, 20000), "halfzero": (rng.choice([0, 20000]), 0)}[kind]
@@ -121,7 +159,7 @@ class C10(F.Spec):
                                            "tags": ["kind:uncal", "sub:" + kind, "sensor:%d" % sensor]})
 
     def autocal(self, rng, i):
-        sensor = rng.choice([3, 3, 3, 1, 2])
+        sensor = rng.choice([3, 3, 3, 1, 2, 5, 5])      # 5: works for the first two runs, then reports movement for ever
         up_ms = 100 * rng.randint(10, 400)
         down_ms = rng.choice([up_ms, 100 * rng.randint(10, 400)])
         startup = rng.choice([0, 100, 250])
@@ -135,7 +173,7 @@ class C10(F.Spec):
         else:
             ops.append("msg 460 " + calcfg(1, 0, 8000, 1, 1000, struct.pack("<ii", 0, 0)).hex())
             g = 0
-        budget = 3 * (up_ms + down_ms) + 10000 if sensor == 3 else 1300000
+        budget = 3 * (up_ms + down_ms) + 10000 if sensor == 3 else 1300000 + (2 * (up_ms + down_ms) if sensor == 5 else 0)
         inter = None
         if rng.random() < 0.3:
             self.run_until_idle(ops, rng.randint(1, max(2, budget // 2000)) * 1000, 1000)
@@ -187,6 +225,14 @@ class C10(F.Spec):
                 ops.append("rstick 0 %d" % dt)
                 if longrun:
                     ops.append("pingreply")      # the server answers the keep-alive pings of a long run
+            if c in ("task", "down") and fc >= 5000 and p < 9000 and not longrun and rng.random() < .4:
+                # requests for the position the shutter is just passing, while it is on its way further down: one of them
+                # meets the reported position exactly
+                first = max(0, (p - 100) // 100)
+                for k in range(first, min(first + 8, 100)):
+                    ops.append("msg 110 " + set_value(7, 0, dur, [10 + k]).hex())
+                    for _ in range(rng.randint(1, 3)):
+                        ops.append("rstick 0 %d" % rng.choice([10000, 10000, 50000, fc * 10 // 2]))
             # stop and rest for longer than the start delay before the next command (reversals and delays: C08)
             ops += ["msg 110 " + set_value(7, 0, dur, [0]).hex(), "rstick 0 10000", "adv 1100", "rstick 0 10000"]
         return F.Case("ticks%d" % i, ops, {"kind": "ticks", "fo": fo, "fc": fc, "margin": mm, "sensor": sensor, "noshrink": True,
@@ -333,12 +379,25 @@ class C10(F.Spec):
                                         "counted until the sensor reports movement, for up to 2 s after switch-on" % ((b - a) / 1e6)))
                 else:
                     fs.append(F.Finding("output-energised-too-long", "an output stayed on for %.1f s" % ((b - a) / 1e6)))
+        # (1b) the time limit is the end: an output that was switched off by it is not energised again by the device itself
+        # (two runs to the limit back to back are twenty minutes of power with a second's pause)
+        if me["kind"] != "ticks":
+            for k, (a, b) in enumerate(ivals):
+                if b is not None and b - a >= 598 * 1000000:
+                    later = [(a2, b2) for a2, b2 in ivals[k + 1:] if not any(b <= c <= a2 for c in cmd_t)]
+                    if later:
+                        fs.append(F.Finding("restarted-after-time-limit", "an output was switched off by the ten-minute limit after %.1f s and "
+                                            "%.1f s later the device energised an output again without a new command" % ((b - a) / 1e6, (later[0][0] - b) / 1e6)))
+                        break
         if me["kind"] == "pos":
             last = me["cmds"][-1]
             still_on = any(levels.values())
             task = hist["RsTask"][-1][1] if hist["RsTask"] else 0
             if last[0] not in ("stop", "move"):
                 g, gt = last
+                keep = g == -1
+                if keep:        # a tilt-only request keeps the position target of the task before it
+                    g = next((c[0] for c in reversed(me["cmds"][:-1]) if c[0] not in ("stop", "move", -1)), me["p0"])
                 if still_on:
                     fs.append(F.Finding("task-not-finished", "target %s/%s: after the whole budget an output is still on (task state %d)" % (g, gt, task // 1000000)))
                 else:
@@ -351,7 +410,7 @@ class C10(F.Spec):
                         # tilting itself moves the position in mode 2; modes 1/3 keep it (a re-target without a tilt
                         # keeps the tilt of the task it replaces)
                         if me["tt"] == 2:
-                            tol += int(100.0 * me["tms"] / min(me["opening"], me["closing"])) + 1
+                            tol += (int(100.0 * me["tms"] / min(me["opening"], me["closing"])) + 1) * (sum(1 for c in me["cmds"] if c[0] == -1) + 1)
                     if abs(rp - g) > tol:
                         fs.append(F.Finding("target-missed", "mode %d: target position %d, stored %.2f %% (reported %d)" % (me["tt"], g, (pos - 100) / 100.0, rp)))
                     if me["tt"] and gt is not None and gt >= 0 and not (me["tt"] == 3 and g != 100):
